@@ -96,10 +96,17 @@ def harness(spec: Any, cap: Any):
                     _eq_lc(c, f"grad[{k}] unchanged by tracking", g_inst[k], g_plain[k], {**info, "claim": "values"})
             c.oblige("no graph input modified", z3.BoolVal(all(t.version == 0 for t in leaves.values())), info={**info, "claim": "values"})
             # ---- metrics = true statistics
+            seen_vals: set = set()
             for n in gm2.graph.nodes:
                 if n.op == "output":
                     continue
                 val = rec.get(n.name)
+                # a pass-through op (.contiguous() of a contiguous tensor) returns the very object an earlier node produced: the plain interpretation
+                # then holds ONE object with the summed gradient of both nodes' consumers, which is not the gradient flowing through this node;
+                # its backward metrics are decided on the real tensors only (concrete_metrics keeps the two apart with a view)
+                passthrough = isinstance(val, STensor) and id(val) in seen_vals
+                if isinstance(val, STensor):
+                    seen_vals.add(id(val))
                 is_float = isinstance(val, STensor) and val.meta.is_floating_point()
                 has = "metrics" in n.meta
                 c.oblige(f"{n.name}: instrumented iff it produces a float tensor", z3.BoolVal(has == is_float and bool(n.meta.get("outputs_float_tensor")) == is_float),
@@ -116,6 +123,8 @@ def harness(spec: Any, cap: Any):
                 c.oblige(f"{n.name}: fwd.numel", (numel == val.numel()) if not isinstance(numel == val.numel(), bool) else z3.BoolVal(numel == val.numel()),
                          info={**info, "claim": "metrics", "node": n.name})
                 gT = grads_rec.get(id(val))
+                if passthrough:
+                    continue
                 if gT is None:
                     c.oblige(f"{n.name}: no backward metrics without gradient", z3.BoolVal(m.bwd is None), info={**info, "claim": "metrics", "node": n.name})
                 else:
@@ -296,6 +305,10 @@ def concrete_metrics(spec: Any) -> Tuple[bool, str]:
         def run_node(self, n: fx.Node) -> Any:
             out = super().run_node(n)
             if isinstance(out, torch.Tensor) and out.is_floating_point():
+                if n.op != "placeholder" and any(v is out for v in vals.values()):
+                    # a pass-through op returned the very tensor object an earlier node produced: the value that flows through THIS node
+                    # is the same, the gradient that flows through it is only what its own consumers send - keep the two apart
+                    out = out.view_as(out)
                 if out.requires_grad and n.op != "placeholder":
                     out.retain_grad()
                 vals[n.name] = out
@@ -504,7 +517,7 @@ def run(rep: Report, only: str = "") -> None:
                   "sharing": "four hand-written modules whose sub-modules share a parameter (tied embedding/output weight, one weight in two Linear layers, one layer called twice): "
                              "the real track_scales is bit-identical to the unwrapped module, per-name parameter gradients included (concrete)",
                   "concrete": "the real track_scales through TorchDynamo on real inputs: bit-identical outputs and gradients, recorded numbers equal recomputed statistics",
-                  "outside": "numeric evaluation of mean/std/max (torch's); zeros in inputs matter only numerically (abs_min), not for the term structure"}
+                  "outside": "numeric evaluation of mean/std/max (torch's); zeros in inputs matter only numerically (abs_min), not for the term structure; backward metrics of pass-through nodes (the op returns its input object) are decided on real tensors only"}
     rep.assumptions = ["mini-autograd accumulates gradients at fan-out as torch.autograd does (total gradient per tensor is recorded from it)"]
     rep.trusted = ["TorchDynamo capture", "engine S"]
     rep.sample({"program": "fan>mse", "claim": "bwd.std of node 'tanh' = std of the SUM of the gradients arriving from both consumers"})
